@@ -5,7 +5,7 @@ THEOREMS = ["C02_encrypted_file_is_documented_format", "C02_write_sequence"]
 
 
 def run(ck):
-    ck.prove(["Properties_C02", "Properties_Src2", "Properties_SrcE2Ef_enc", "Properties_SrcE2Ef_cor", "SrcRun5"], THEOREMS + ["SRC_header", "SRC_execute_encrypt_is_model", "SRC_encrypted_file_is_documented_format"])   # SrcRun5: the translated whole-file runs (a stale translation concerns this property)
+    ck.prove(["Properties_C02", "Properties_Src2", "Properties_SrcE2Ef", "Properties_SrcE2Ef_cor", "SrcRun5"], THEOREMS + ["SRC_header", "SRC_execute_encrypt_is_model", "SRC_encrypted_file_is_documented_format"])   # SrcRun5: the translated whole-file runs (a stale translation concerns this property)
     exe = small_driver(ck)
     env = small_env(ck)
     mdrv = ck.model_driver()
